@@ -5,7 +5,9 @@ import (
 	"bytes"
 	"encoding/hex"
 	"fmt"
+	"os"
 	"os/exec"
+	"regexp"
 	"strings"
 )
 
@@ -65,4 +67,66 @@ func RunDriver(driver string, reqs []EReq) ([][]byte, []bool, error) {
 		return nil, nil, fmt.Errorf("driver answered %d of %d requests", len(res), len(reqs))
 	}
 	return res, oks, nil
+}
+
+// CrossCheck re-evaluates a sample of the driver's answers inside Coq (vm_compute over the same
+// Gallina definitions the driver was extracted from): the extraction and the OCaml driver are
+// tied to what the kernel computes on every run.
+func CrossCheck(o *Options, res *Result, tag string, reqs []EReq, outs [][]byte, oks []bool) error {
+	const want = 160
+	step := len(reqs)/want + 1
+	var items []string
+	var picked []int
+	for i := 0; i < len(reqs) && len(picked) < want; i += step {
+		if len(reqs[i].In) > 48 {
+			continue
+		}
+		out := "None"
+		if oks[i] {
+			out = "Some " + gBytes(outs[i])
+			if len(outs[i]) == 0 {
+				out = "Some []"
+			}
+		}
+		items = append(items, fmt.Sprintf("(%d%%N, %s, %s, %s)", reqs[i].Fn, gZ(int64(reqs[i].Itr)), gBytes(reqs[i].In), out))
+		picked = append(picked, i)
+	}
+	if len(items) == 0 {
+		return nil
+	}
+	var sb strings.Builder
+	sb.WriteString("From DT Require Import Model.Bytes Model.VCase Extract.Dispatch.\nFrom Coq Require Import List NArith ZArith.\nImport ListNotations.\nLocal Open Scope hb_scope.\n")
+	sb.WriteString("Definition ob_eqb (a b : option bytes) : bool := match a, b with Some x, Some y => bytes_eqb x y | None, None => true | _, _ => false end.\n")
+	fmt.Fprintf(&sb, "Definition cases : list (N * Z * bytes * option bytes) := %s.\n", gList(items))
+	sb.WriteString("Fixpoint mism (i : nat) (l : list (N * Z * bytes * option bytes)) : list nat :=\n  match l with\n  | [] => []\n  | (fn, itr, s, out) :: r => if ob_eqb (run_esc fn itr s) out then mism (S i) r else i :: mism (S i) r\n  end.\n")
+	sb.WriteString("Definition bad := Eval vm_compute in mism 0 cases.\nPrint bad.\n")
+	dir := fmt.Sprintf("%s/xcheck-%s", o.WorkDir, tag)
+	_ = os.MkdirAll(dir, 0o755)
+	file := dir + "/cases.v"
+	if err := os.WriteFile(file, []byte(sb.String()), 0o644); err != nil {
+		return err
+	}
+	out, err := exec.Command("timeout", "900", "coqc", "-Q", o.CoqDir, "DT", "-Q", dir, "XC", file).CombinedOutput()
+	if err != nil {
+		return fmt.Errorf("coqc on %s: %v\n%s", file, err, tail(string(out), 1200))
+	}
+	k := strings.Index(string(out), "bad =")
+	if k < 0 {
+		return fmt.Errorf("extraction cross-check: no result in coqc output")
+	}
+	res.Histogram["extraction-cross-check("+tag+"):cases"] += len(items)
+	for _, m := range regexp.MustCompile(`\d+`).FindAllString(string(out[k:]), -1) {
+		var j int
+		fmt.Sscan(m, &j)
+		if j < 0 || j >= len(picked) {
+			continue
+		}
+		i := picked[j]
+		res.Mismatches++
+		res.AddViolation(&Violation{Kind: "no-failing-input-found", Class: "extraction-cross-check", Lemma: "extracted OCaml driver vs vm_compute over the same Gallina definitions (Extract/Dispatch.v)",
+			What:   fmt.Sprintf("function %d (%d passes) on %q: the extracted driver answers %q/%v, evaluation inside Coq differs", reqs[i].Fn, reqs[i].Itr, reqs[i].In, outs[i], oks[i]),
+			Replay: map[string]any{"fn": reqs[i].Fn, "itr": reqs[i].Itr, "input_hex": hx(reqs[i].In), "driver_output_hex": hx(outs[i]), "driver_ok": oks[i]}})
+	}
+	_ = os.RemoveAll(dir)
+	return nil
 }
